@@ -30,6 +30,14 @@ class UserValueError(UserFunctionError, ValueError):
     """a user function failing with a ValueError"""
 
 
+# one marker class per built-in exception class a user function may plausibly fail with (a wrapper
+# in the stepper that catches one of these "to give a better message" must not swallow the user's)
+USER_EXCEPTIONS = [UserFunctionError, UserTypeError, UserValueError] + [
+    type("User" + b.__name__, (UserFunctionError, b), {"__doc__": "a user function failing with a " + b.__name__})
+    for b in (AttributeError, KeyError, IndexError, RuntimeError, NotImplementedError, ZeroDivisionError,
+              AssertionError, NameError, OSError)]
+
+
 # ------------------------------------------------------------------ to pymbolic
 
 def to_pym(e):
@@ -37,6 +45,9 @@ def to_pym(e):
     k = e[0]
     if k == "int":
         return int(e[1])
+    if k == "npint":          # a NumPy-typed integer constant (e.g. an entry of a coefficient array)
+        import numpy as np
+        return np.int64(e[1])
     if k == "bool":
         return bool(e[1])
     if k == "none":
@@ -81,7 +92,9 @@ def from_pym(x):
         return ["none"]
     if isinstance(x, (bool, np.bool_)):
         return ["bool", bool(x)]
-    if isinstance(x, (int, np.integer)):
+    if isinstance(x, np.integer):
+        return ["npint", int(x)]
+    if isinstance(x, int):
         return ["int", int(x)]
     if isinstance(x, p.Variable):
         return ["var", x.name]
@@ -154,7 +167,7 @@ def coq_str(s):
 
 def to_coq(e):
     k = e[0]
-    if k == "int":
+    if k in ("int", "npint"):     # same value; the model has one integer type
         return "(EInt (%d))" % e[1]
     if k == "bool":
         return "(EBool %s)" % ("true" if e[1] else "false")
@@ -323,7 +336,7 @@ def test_F(name, nres):
         for k in kwargs:
             h += len(k) * _as_int(kwargs[k])
         if "raise" in name and h % 3 == 0:
-            raise (UserFunctionError, UserTypeError, UserValueError)[(h // 3) % 3](name)
+            raise USER_EXCEPTIONS[(h // 3) % len(USER_EXCEPTIONS)](name)
         if "arr" in name:
             return np.array([h + i for i in range(h % 3 + 1)], dtype=np.int64)
         if nres == 1:
@@ -425,7 +438,7 @@ class Gen:
             return ["lookup", ["var", r.choice(self.ints)], r.choice(["real", "imag"])]
         if self.pow_nodes and r.random() < 0.25:
             # small powers incl. nested ones and negative constant bases (outside the Coq model)
-            base = r.choice([self.int_expr(d - 1), ["int", r.choice([-2, -1, 2, 3])],
+            base = r.choice([self.int_expr(d - 1), ["int", r.choice([-2, -1, 2, 3])], ["npint", r.choice([-2, -1, 2])],
                              ["pow", self.int_expr(0), ["int", r.choice([0, 1, 2])]]])
             ex = r.choice([["int", 0], ["int", 1], ["int", 2], ["pow", ["int", 2], ["int", r.choice([0, 1, 2])]]])
             return ["bin", "rem", ["pow", base, ex], ["int", 97]]
